@@ -25,8 +25,8 @@ RULE = (
     "Hypothesis draws a function (1-4 inputs, 1-3 outputs or a float: polynomial of degree <= 3 with integer "
     "coefficients, or a*sin(w.x+p)*exp(v.x+q)), a box, a point whose components are inside, exactly 0, on a "
     "bound or within one step of a bound, a method (forward, centred, complex step), a step (1e-8..1e-3; "
-    "1e-30..1e-8 for the complex step; scalar or one per differentiated component), all components or a sorted "
-    "strict subset, no design space / a design space / a normalised design space, a constructor step that is absent, the same or different (scalar / array) from "
+    "1e-30..1e-8 for the complex step; scalar or one per differentiated component), all components or a "
+    "strict subset in any order, no design space / a design space / a normalised design space, a constructor step that is absent, the same or different (scalar / array) from "
     "the step passed per call, serial or parallel (processes, threads); the approximation is compared entry-wise with the exact derivative within the "
     "analytic bound of the method, and the logged evaluation points with the upper bounds.  Half of the cases differentiate "
     "a second time with the same approximator after the upper bounds and the point were moved.  Optimal-step cases "
@@ -49,14 +49,26 @@ ASSUMPTIONS = [
     "array) the constructor received; ComplexStep takes a number in its constructor",
     "discipline cache: default, SimpleCache or MemoryFullCache with a tolerance in {0, 1e-3, 1e-2, 0.1} (far above "
     "the step; the approximation must not be served from the cache), or no cache; every case uses a fresh discipline",
-    "component subsets are sorted",
+    "component subsets are requested in any order without repetition (column j of the result is the derivative w.r.t. "
+    "x_indices[j]; check_jacobian index lists keep the caller's order); steps are positive (a negative step is outside "
+    "the domain: CenteredDifferences then returns the negated derivative, FirstOrderFD does not)",
+    "a point may be given as an int64 array with integer coordinates (current value of an all-integer design space)",
+    "check_jacobian acceptance rule (read on the code): |analytic - approx| <= threshold + threshold*|approx|; in the "
+    "'precise' cases (entries ~1e3, thresholds 1e-8/1e-7, complex step or centred differences on quadratics) a verdict is "
+    "required only when the error bound of the reference decides it either way",
+    "thread-parallel discipline approximations use a harness discipline that pauses 2 ms between reading its inputs and "
+    "writing its outputs and counts overlapping executions; the sleep is not part of any oracle",
+    "after a switch of approximation mode through the linearization_mode setter the step may be the default 1e-7 or the "
+    "one of the previous mode: the bound of the new scheme over that range is required",
+    "DisciplineJacApprox with one step per input component (documented): the bound of the scheme over the range of the "
+    "given steps is required, whichever entry a component subset uses",
     "boxes are at least 0.5 wide, steps at most 1e-3: a flipped step never leaves the box on the other side",
     "bound safety is asserted for the upper bounds (the statement); lower-bound excursions of the centred "
     "scheme are only counted",
     "parallel runs are compared with the serial result bit for bit; with processes the evaluation points "
     "cannot be logged",
     "check_jacobian: threshold = 2 x error bound + 1e-9 (<= 0.1), wrong entry off by 1 + |entry|",
-    "discipline-level parallel approximation is not exercised (threads share the discipline state)",
+    "discipline-level parallel approximation is exercised with threads only (2-4 threads, linearize and check_jacobian)",
     "two-call histories: the same approximator objects (serial and parallel) differentiate a second time after the upper "
     "bounds of the design space were moved (tightened by 25/50 %, relaxed by 50 % or kept) and the point was redrawn; "
     "every oracle is applied to each call with the bounds of the design space at that call; in a normalised space one "
@@ -76,6 +88,9 @@ K_BEYOND_UB = "step_beyond_upper_bound"
 K_THREADS = "parallel_threading"
 K_SUBSET_DEFAULTS = "discipline_approximation_input_subset_uses_defaults"
 K_AUTO_CACHE = "auto_step_with_cache_tolerance"
+K_INT_POINT = "differences_at_integer_dtype_point"
+K_STEP_ARRAY_INDICES = "discipline_step_array_with_indices"
+K_MODE_SWITCH = "linearization_mode_switch_keeps_approximator"
 
 
 # =========================================================================== strategies
@@ -128,6 +143,21 @@ def curved_specs(draw, n: int, n_out: int):
 
 
 @st.composite
+def large_specs(draw, n: int, n_out: int):
+    """Quadratic maps whose Jacobian entries are ~1e3 (linear coefficients +-1000..3000, small curvatures)."""
+    outs = []
+    for _ in range(n_out):
+        monos = [{"c": draw(st.integers(-3, 3)), "e": [0] * n}]
+        for j in range(n):
+            monos.append({"c": 1000 * draw(st.sampled_from([-3, -2, -1, 1, 2, 3])), "e": [int(i == j) for i in range(n)]})
+            c = draw(st.integers(-2, 2))
+            if c:
+                monos.append({"c": c, "e": [2 * int(i == j) for i in range(n)]})
+        outs.append(monos)
+    return {"kind": "poly", "n": n, "out": outs}
+
+
+@st.composite
 def optimal_step_cases(draw):
     n = draw(st.integers(1, 3))
     n_out = draw(st.integers(1, 3))
@@ -161,6 +191,10 @@ def approximator_cases(draw):
         "split": draw(st.integers(1, 3)), "inf_ub": draw(st.integers(0, 7)),
         "parallel": draw(st.sampled_from(["no"] * 12 + ["processes"] + ["threads"] * 5)),
         "inf_lb": draw(st.integers(0, 7)),  # normalised space: this component has no lower bound, hence is not normalised
+        # order in which the differentiated components are requested (x_indices need not be increasing)
+        "order": list(draw(st.permutations(list(range(n))))) if draw(st.booleans()) else None,
+        # the point is given as an int64 array (DesignSpace.get_current_value() of an all-integer space)
+        "int_point": draw(st.integers(0, 15)) == 11,
     }
     if draw(st.booleans()):
         # the SAME approximator differentiates a second time after the upper bounds were moved and the point too
@@ -169,8 +203,13 @@ def approximator_cases(draw):
     return p
 
 
+BASIC_ACTIONS = ["linearize", "check", "check", "check_wrong", "check_wrong"]
+AUTO_ACTIONS = ["auto_check", "auto_check", "auto_check_wrong", "auto_linearize"]
+PRECISE_ACTIONS = ["precise", "precise_wrong", "precise_wrong", "precise_wrong"]
+
+
 @st.composite
-def discipline_cases(draw):
+def discipline_cases(draw, actions=tuple(BASIC_ACTIONS)):
     n_in = draw(st.integers(1, 3))
     n_out = draw(st.integers(1, 2))
     in_sizes = draw(_lst(st.integers(1, 3), n_in))
@@ -188,7 +227,16 @@ def discipline_cases(draw):
         "f": draw(function_specs(n, m, trig_ok=False, dense=draw(st.integers(0, 3)) > 0)), "x": draw(_lst(st.integers(-8, 8), n)),
         "method": method, "h_mant": draw(st.sampled_from([1.0, 2.0, 5.0])),
         "h_exp": draw(st.integers(-30, -8)) if method == "cs" else draw(st.integers(-7, -5)),
-        "action": draw(st.sampled_from(["linearize", "check", "check", "check_wrong", "check_wrong", "auto_check", "auto_check", "auto_check_wrong", "auto_linearize"])),
+        "action": draw(st.sampled_from(list(actions))),
+        # a wrong entry off by a RELATIVE error on a Jacobian with entries ~1e3, tight thresholds, near-exact reference
+        "fl": draw(large_specs(n, m)), "rel": draw(st.sampled_from([5e-6, 5e-6, 2e-6, 1e-4, 1e-2, 1.0])), "tight": draw(st.sampled_from([1e-8, 1e-7])),
+        "cd_exp": draw(st.sampled_from([-3, -2])),
+        # thread-parallel approximation of ONE discipline
+        "n_threads": draw(st.integers(2, 4)), "threads_via": draw(st.sampled_from(["linearize", "check", "check"])),
+        # approximation mode set before the one under test (the setter must switch the scheme)
+        "prev_method": draw(st.sampled_from([None, None, "fd", "cd", "cs"])), "prev_h_exp": draw(st.integers(-7, -5)), "prev_via_setter": draw(st.booleans()),
+        # DisciplineJacApprox(step=<one step per input component>) used by check_jacobian
+        "step_array": draw(st.one_of(st.none(), _lst(st.sampled_from([0.5, 1.0, 2.0, 4.0]), 9))),
         # strictly curved quadratic used by the optimal-step actions, with its initial step
         "fq": draw(curved_specs(n, m)), "auto_h_exp": draw(st.integers(-4, -2)),
         "via_setter": draw(st.booleans()), "default_step": draw(st.integers(0, 3)) == 0,
@@ -313,6 +361,8 @@ def layout(p):
         sel = [j for j in range(n) if p["subset"][j]]
         if not sel or len(sel) == n:
             sel = [j for j in range(n) if j != (sum(p["subset"]) % n)]  # always a strict subset
+    if p.get("order") and (len(sel) < n or p["explicit_all"]):
+        sel = sorted(sel, key=lambda j: p["order"][j])
     h0 = p["h_mant"] * 10.0 ** p["h_exp"]
     per_component = p["steps"] is not None
     steps = np.array([h0 * (p["steps"][j] if per_component else 1.0) for j in sel])
@@ -333,8 +383,14 @@ def layout(p):
         x[j] = {"inside": lb_w[j] + t * (ub_w[j] - lb_w[j]), "zero": 0.0, "ub": ub_w[j], "lb": lb_w[j],
                 "near_ub": ub_w[j] - t * h, "near_lb": lb_w[j] + t * h}[mode]
         modes.append(mode)
+    int_point = bool(p.get("int_point")) and all(math.ceil(lo) <= hi for lo, hi in zip(lb_w, ub_w))
+    if int_point:
+        # integer coordinates inside the box: the smallest integer >= lb, or the largest <= ub
+        for j in range(n):
+            x[j] = float(math.ceil(lb_w[j])) if p["pos"][j]["t"] < 0.6 else float(math.floor(ub_w[j]))
+            modes[j] = "ub" if x[j] == ub_w[j] and not inf_ub[j] else "lb" if x[j] == lb_w[j] and not inf_lb[j] else "zero" if x[j] == 0.0 else "inside"
     return {"lb": np.where(inf_lb, -np.inf, lb), "lb_chk": np.where(inf_lb, -np.inf, lb_w), "ub": np.where(inf_ub, np.inf, ub), "lb_w": lb_w, "ub_w": np.where(inf_ub, np.inf, ub_w), "box_hi": ub_w, "x": x, "modes": modes,
-            "sel": sel, "steps": steps, "h0": h0, "per_component": per_component, "strict": len(sel) < n}
+            "sel": sel, "steps": steps, "h0": h0, "per_component": per_component, "strict": len(sel) < n, "int_point": int_point}
 
 
 def build_space(p, lay, space=None):
@@ -411,15 +467,23 @@ def case_approximator(p, ctx):
     def differentiate(lay, call):
         """One call of f_gradient on the (same) approximators, held to the bounds the design space has NOW."""
         x = lay["x"]
+        x_given = x
+        if lay["int_point"]:
+            ctx.cls("point_given_as_int64")
+            if bounded_scheme and ctx.known(K_INT_POINT):
+                return False
+            x_given = x.astype(np.int64)
+        if sel != sorted(sel):
+            ctx.cls("components_requested_in_non_increasing_order")
         near_ub = [j for j in sel if lay["modes"][j] == "near_ub"]
         for j in sel:
             ctx.cls("point_" + lay["modes"][j])
         del calls[:]
-        x_before = x.copy()
+        x_before = x_given.copy()
         with warnings.catch_warnings():
             warnings.simplefilter("ignore", RuntimeWarning)
-            grad = approx.f_gradient(x, None if in_constructor else step_arg, x_indices)
-        ctx.check(np.array_equal(x, x_before), "input_unmodified", "f_gradient modified the input vector")
+            grad = approx.f_gradient(x_given, None if in_constructor else step_arg, x_indices)
+        ctx.check(np.array_equal(x_given, x_before) and x_given.dtype == x_before.dtype, "input_unmodified", "f_gradient modified the input vector")
         expected_shape = (len(sel),) if scalar else (n_out, len(sel))
         ctx.check(isinstance(grad, np.ndarray) and grad.shape == expected_shape, "shape", f"{call}: gradient has shape {np.shape(grad)}, expected {expected_shape}")
         got = grad.reshape(n_out, len(sel))
@@ -455,7 +519,7 @@ def case_approximator(p, ctx):
         if par is not None:
             with warnings.catch_warnings():
                 warnings.simplefilter("ignore", RuntimeWarning)
-                grad_par = par.f_gradient(x, None if in_constructor else step_arg, x_indices)
+                grad_par = par.f_gradient(x_given, None if in_constructor else step_arg, x_indices)
             ctx.check(isinstance(grad_par, np.ndarray) and grad_par.shape == grad.shape and np.array_equal(grad_par, grad), "parallel_equals_serial",
                       f"{method}, {call}: the parallel gradient {grad_par!r} differs from the serial one {grad!r}")
         return any(lay["modes"][j] in ("zero", "ub", "lb", "near_ub", "near_lb") for j in sel)
@@ -553,7 +617,12 @@ def case_optimal_step(p, ctx):
 
 
 # =========================================================================== oracle: discipline level
-def make_discipline(p, wrong_entry):
+def make_discipline(p, wrong_entry, overlap=False):
+    """The polynomial harness discipline; wrong_entry = (row, col) or (row, col, relative error); overlap=True records
+    concurrent executions (a short pause separates reading the inputs from writing the outputs)."""
+    import threading
+    import time
+
     from gemseo.core.discipline import Discipline
 
     spec = p["f"]
@@ -567,13 +636,27 @@ def make_discipline(p, wrong_entry):
             self.io.input_grammar.update_from_names(in_names)
             self.io.output_grammar.update_from_names(out_names)
             self.n_runs = 0
+            self.active = self.max_active = 0
+            self.guard = threading.Lock()
 
         def _x(self, data):
             return np.concatenate([np.atleast_1d(data[name]) for name in in_names])
 
         def _run(self, input_data):
             self.n_runs += 1
-            y = f_eval(spec, self._x(input_data))
+            if overlap:
+                with self.guard:
+                    self.active += 1
+                    self.max_active = max(self.max_active, self.active)
+                try:
+                    x_read = self._x(input_data).copy()
+                    time.sleep(0.002)
+                    y = f_eval(spec, x_read)
+                finally:
+                    with self.guard:
+                        self.active -= 1
+            else:
+                y = f_eval(spec, self._x(input_data))
             out, k = {}, 0
             for name, size in zip(out_names, out_sizes):
                 out[name] = y[k:k + size]
@@ -582,7 +665,9 @@ def make_discipline(p, wrong_entry):
 
         def _compute_jacobian(self, input_names=(), output_names=()):
             full = f_jac(spec, np.real(self._x(self.io.data)))
-            if wrong_entry is not None:
+            if wrong_entry is not None and len(wrong_entry) == 3:
+                full[wrong_entry[:2]] *= 1.0 + wrong_entry[2]
+            elif wrong_entry is not None:
                 full[wrong_entry] += 1.0 + abs(full[wrong_entry])
             self.jac = {}
             r = 0
@@ -613,7 +698,7 @@ def resolve_indices(code, size):
         i = code["int"] % size
         return i, [i]
     if "list" in code:
-        items = sorted({i % size for i in code["list"]})
+        items = list(dict.fromkeys(i % size for i in code["list"]))  # the caller's order, not necessarily increasing
         return items, items
     a, b = sorted(v % (size + 1) for v in code["slice"])
     if a == b:
@@ -682,9 +767,110 @@ def case_discipline_auto(p, ctx):
     ctx.sample({"oracle": "discipline", "case": p})
 
 
+def _io_layout(p):
+    in_names, in_sizes, out_names, out_sizes = p["in_names"], p["in_sizes"], p["out_names"], p["out_sizes"]
+    offsets_in = dict(zip(in_names, np.cumsum([0, *in_sizes[:-1]])))
+    offsets_out = dict(zip(out_names, np.cumsum([0, *out_sizes[:-1]])))
+    return in_names, in_sizes, out_names, out_sizes, offsets_in, offsets_out
+
+
+def case_discipline_precise(p, ctx):
+    """The documented acceptance rule |analytic - approx| <= threshold + threshold*|approx| decides: large entries,
+    tight threshold, a reference accurate far below the threshold, a wrong entry off by a relative error."""
+    in_names, in_sizes, out_names, out_sizes, offsets_in, _ = _io_layout(p)
+    n, m = sum(in_sizes), sum(out_sizes)
+    spec = p["fl"]
+    method = "cs" if p["method"] != "cd" else "cd"  # centred differences are exact on quadratics up to rounding
+    mode_name = {"cd": "centered_differences", "cs": "complex_step"}[method]
+    h = p["h_mant"] * 10.0 ** (p["cd_exp"] if method == "cd" else min(p["h_exp"], -8))
+    x = np.array(p["x"], dtype=float) / 4.0
+    data = {name: x[offsets_in[name]:offsets_in[name] + size].copy() for name, size in zip(in_names, in_sizes)}
+    exact = f_jac(spec, x)
+    radius = np.abs(x) + (h if method != "cs" else 0.0)
+    big, m1, m2, m3 = f_bounds(spec, radius)
+    err = np.array([[error_bound(method, h, x[j], False, big[k], m1[k, j], m2[k, j], m3[k, j], radius[j]) for j in range(n)] for k in range(m)])
+    thr = p["tight"]
+    ctx.cls("disc_" + p["action"], "disc_precise_" + method)
+    # an exact entry is certainly accepted when err <= thr + thr*(|c| - err)
+    if not np.all(err <= thr + thr * (np.abs(exact) - err)):
+        ctx.cls("disc_precise_skipped_reference_not_accurate_enough")
+        return
+    wrong, expected = None, True
+    if p["action"] == "precise_wrong":
+        row, col = p["wrong"][0] % m, p["wrong"][1] % n
+        wrong = (row, col, p["rel"])
+        delta, e, c = p["rel"] * abs(exact[row, col]), err[row, col], abs(exact[row, col])
+        if delta - e > thr * (1 + c + e) * (1 + 1e-9):
+            expected = False  # certainly rejected
+        elif delta + e <= thr + thr * (c - e):
+            expected = True  # within the documented tolerance: certainly accepted
+        else:
+            ctx.cls("disc_precise_skipped_undecided")
+            return
+        ctx.cls(f"disc_precise_relative_error_{p['rel']:g}_" + ("rejected" if not expected else "accepted"))
+    disc = make_discipline(dict(p, f=spec), wrong)
+    disc.io.input_grammar.defaults.update(data)
+    verdict = disc.check_jacobian(data, derr_approx=mode_name, step=h, threshold=thr)
+    ctx.check(bool(verdict) == expected, "check_jacobian_threshold",
+              f"check_jacobian({mode_name}, step={h:g}, threshold={thr:g}) on a Jacobian with entries ~1e3 returned {verdict}, expected {expected}"
+              + (f": entry ({wrong[0]},{wrong[1]}) = {exact[wrong[0], wrong[1]]!r} is off by a relative {wrong[2]:g} "
+                 f"(|error| {p['rel'] * abs(exact[wrong[0], wrong[1]]):.3g}, documented tolerance {thr + thr * abs(exact[wrong[0], wrong[1]]):.3g})" if wrong else " (exact Jacobian)"))
+    ctx.nontriv(("disc_precise", p))
+    ctx.sample({"oracle": "discipline", "case": p})
+
+
+def case_discipline_threads(p, ctx):
+    """Thread-parallel approximation of one discipline: same Jacobian as the serial run, bit for bit, and no two
+    executions of the discipline overlap."""
+    in_names, in_sizes, out_names, out_sizes, offsets_in, offsets_out = _io_layout(p)
+    n, m = sum(in_sizes), sum(out_sizes)
+    spec, method = p["f"], p["method"]
+    mode_name = {"fd": "finite_differences", "cd": "centered_differences", "cs": "complex_step"}[method]
+    h = p["h_mant"] * 10.0 ** p["h_exp"]
+    x = np.array(p["x"], dtype=float) / 4.0
+    data = {name: x[offsets_in[name]:offsets_in[name] + size].copy() for name, size in zip(in_names, in_sizes)}
+    exact = f_jac(spec, x)
+    radius = np.abs(x) + (h if method != "cs" else 0.0)
+    big, m1, m2, m3 = f_bounds(spec, radius)
+    bound = np.array([[error_bound(method, h, x[j], False, big[k], m1[k, j], m2[k, j], m3[k, j], radius[j]) for j in range(n)] for k in range(m)])
+    ctx.cls("disc_threads", "disc_threads_" + method, "disc_threads_via_" + p["threads_via"])
+    serial = make_discipline(p, None)
+    serial.io.input_grammar.defaults.update(data)
+    serial.set_jacobian_approximation(mode_name, h)
+    jac_serial = serial.linearize(data, compute_all_jacobians=True)
+    disc = make_discipline(p, None, overlap=True)
+    disc.io.input_grammar.defaults.update(data)
+    if p["threads_via"] == "linearize":
+        disc.set_jacobian_approximation(mode_name, h, jac_approx_n_processes=p["n_threads"], jac_approx_use_threading=True)
+        jac = disc.linearize(data, compute_all_jacobians=True)
+        for oname, osize in zip(out_names, out_sizes):
+            for iname, isize in zip(in_names, in_sizes):
+                block, ref = np.asarray(jac[oname][iname]), np.asarray(jac_serial[oname][iname])
+                ctx.check(block.shape == ref.shape and np.array_equal(block, ref), "discipline_threads",
+                          f"{mode_name} with {p['n_threads']} threads: d{oname}/d{iname} = {block!r} differs from the serial approximation {ref!r}")
+                r, c = offsets_out[oname], offsets_in[iname]
+                ctx.check(bool(np.all(np.abs(block - exact[r:r + osize, c:c + isize]) <= bound[r:r + osize, c:c + isize])), "discipline_threads",
+                          f"{mode_name} with {p['n_threads']} threads: d{oname}/d{iname} = {block!r} is not within the bound of the scheme")
+    else:
+        threshold = 2 * float(np.max(bound)) + 1e-9
+        if threshold > 0.1:
+            ctx.cls("disc_check_skipped_loose_bound")
+            return
+        verdict = disc.check_jacobian(data, derr_approx=mode_name, step=h, threshold=threshold, parallel=True, n_processes=p["n_threads"], use_threading=True)
+        ctx.check(bool(verdict), "discipline_threads", f"check_jacobian({mode_name}, parallel=True, use_threading=True, n_processes={p['n_threads']}) rejected an exact Jacobian")
+    ctx.check(disc.max_active == 1, "discipline_threads_overlap",
+              f"{mode_name} with {p['n_threads']} threads ({p['threads_via']}): up to {disc.max_active} executions of the same discipline were running at the same time")
+    ctx.nontriv(("disc_threads", p))
+    ctx.sample({"oracle": "discipline", "case": p})
+
+
 def case_discipline(p, ctx):
     if p["action"].startswith("auto_"):
         return case_discipline_auto(p, ctx)
+    if p["action"].startswith("precise"):
+        return case_discipline_precise(p, ctx)
+    if p["action"] == "threads":
+        return case_discipline_threads(p, ctx)
     spec, method = p["f"], p["method"]
     in_names, in_sizes, out_names, out_sizes = p["in_names"], p["in_sizes"], p["out_names"], p["out_sizes"]
     n, m = sum(in_sizes), sum(out_sizes)
@@ -731,7 +917,27 @@ def case_discipline(p, ctx):
     if p["action"] == "linearize":
         disc = make_discipline(p, None)
         set_defaults(disc)
-        if p["via_setter"]:
+        prev = p.get("prev_method")
+        if prev is not None and prev != method:
+            # another approximation mode is in place, then the mode under test is selected through the setter: the
+            # scheme must change (its step: the default 1e-7 or the one of the previous mode, both are accepted)
+            ctx.cls("disc_linearize_after_mode_switch")
+            if ctx.known(K_MODE_SWITCH):
+                return
+            prev_name = {"fd": "finite_differences", "cd": "centered_differences", "cs": "complex_step"}[prev]
+            prev_h = p["h_mant"] * 10.0 ** p["prev_h_exp"]
+            if p["prev_via_setter"]:
+                disc.linearization_mode = prev_name
+                prev_h = 1e-7
+            else:
+                disc.set_jacobian_approximation(prev_name, prev_h)
+            disc.linearization_mode = mode_name
+            lo_h, hi_h = min(1e-7, prev_h), max(1e-7, prev_h)
+            radius = np.abs(x) + (hi_h if method != "cs" else 0.0)
+            big, m1, m2, m3 = f_bounds(spec, radius)
+            bound = np.array([[bound_over_interval(method, lo_h, hi_h, x[j], big[k], m1[k, j], m2[k, j], m3[k, j], radius[j]) for j in range(n)] for k in range(m)])
+            h = hi_h
+        elif p["via_setter"]:
             disc.linearization_mode = mode_name
             if not default_step:
                 disc.set_jacobian_approximation(mode_name, h)
@@ -787,8 +993,32 @@ def case_discipline(p, ctx):
         ctx.cls("disc_check_complex_step_non_prefix_indices")
         if ctx.known(K_CS_SUBSET):
             return
+    step_array = None
+    if p.get("step_array") is not None and method != "cs":
+        # one step per component of the inputs (documented for DisciplineJacApprox): the bound holds for any of them
+        step_array = np.array([h * p["step_array"][i] for i in range(pos)])
+        ctx.cls("disc_check_step_array" + ("_with_component_subset" if subset_of_inputs else ""))
+        if subset_of_inputs and ctx.known(K_STEP_ARRAY_INDICES):
+            return
+        lo_h, hi_h = float(step_array.min()), float(step_array.max())
+        radius = np.abs(x) + hi_h
+        big, m1, m2, m3 = f_bounds(spec, radius)
+        bound = np.array([[bound_over_interval(method, lo_h, hi_h, x[j], big[k], m1[k, j], m2[k, j], m3[k, j], radius[j]) for j in range(n)] for k in range(m)])
+        threshold = 2 * float(np.max(bound)) + 1e-9
+        if threshold > 0.1:
+            ctx.cls("disc_check_skipped_loose_bound")
+            return
     disc = make_discipline(p, wrong)
     set_defaults(disc)
+    if step_array is not None:
+        from gemseo.utils.derivatives.derivatives_approx import DisciplineJacApprox
+
+        # what Discipline.check_jacobian does, with an approximator given one step per input component
+        disc.add_differentiated_inputs(sel_in)
+        disc.add_differentiated_outputs(sel_out)
+        approx = DisciplineJacApprox(disc, mode_name, step_array)
+        disc.linearize(input_data)
+        verdict = approx.check_jacobian(sel_out, sel_in, threshold=threshold, indices=indices)
     kwargs = {"input_data": input_data, "derr_approx": mode_name, "step": h, "threshold": threshold}
     if p["in_subset"] is not None or p["reverse_names"]:
         kwargs["input_names"] = sel_in
@@ -798,7 +1028,8 @@ def case_discipline(p, ctx):
         kwargs["indices"] = indices
     with warnings.catch_warnings():
         warnings.simplefilter("ignore", RuntimeWarning)
-        verdict = disc.check_jacobian(**kwargs)
+        if step_array is None:
+            verdict = disc.check_jacobian(**kwargs)
     expected = True
     if wrong is not None:
         row, col = wrong
@@ -818,10 +1049,15 @@ def case_discipline(p, ctx):
     ctx.sample({"oracle": "discipline", "case": p})
 
 
-ORACLES = {"approximator": case_approximator, "optimal_step": case_optimal_step, "discipline": case_discipline}
+ORACLES = {"approximator": case_approximator, "optimal_step": case_optimal_step, "discipline": case_discipline, "discipline_auto": case_discipline,
+           "discipline_precise": case_discipline, "discipline_threads": case_discipline}
 
 
 def run(ctx):
     ctx.drive("approximator", approximator_cases(), case_approximator, quick=1200, thorough=8000)
     ctx.drive("optimal_step", optimal_step_cases(), case_optimal_step, quick=200, thorough=1500)
-    ctx.drive("discipline", discipline_cases(), case_discipline, quick=550, thorough=3000)
+    # one stream per family of discipline-level actions (a failure in one does not hide the others)
+    ctx.drive("discipline", discipline_cases(), case_discipline, quick=450, thorough=2500)
+    ctx.drive("discipline_auto", discipline_cases(tuple(AUTO_ACTIONS)), case_discipline, quick=200, thorough=1000)
+    ctx.drive("discipline_precise", discipline_cases(tuple(PRECISE_ACTIONS)), case_discipline, quick=150, thorough=800)
+    ctx.drive("discipline_threads", discipline_cases(("threads",)), case_discipline, quick=40, thorough=150)
